@@ -36,6 +36,12 @@ P = "C05"
 F = "svg."
 
 
+def _clamp01(H, v):
+    if H.mode == "sym":
+        return smax(0, smin(1, v))
+    return max(0.0, min(1.0, v))
+
+
 def _attr_state(H, el):
     return dict(el.attrib)
 
@@ -76,9 +82,11 @@ def inherit_multiply(H):
     ok = set(child.attrib) == {"opacity", "keep"} and child.attrib["keep"] == "me"
     H.prove(ok, "inherit_multiply.frame")
     if ok:
-        want = (pn if parent_has else 1) * (cn if child_has else 1)
-        got = num_of(H, child.attrib["opacity"])
-        H.prove(H.close(got, want) if H.mode == "sym" else abs(got - want) <= 1e-9 * (1 + abs(want)), "inherit_multiply.product_of_parent_and_child")
+        # what a renderer composites with is the value clamped to [0, 1] (SVG 1.1 14.5): the pushed-down result must have the alpha of the
+        # two elements it replaces, each clamped on its own
+        want = _clamp01(H, pn if parent_has else 1) * _clamp01(H, cn if child_has else 1)
+        got = _clamp01(H, num_of(H, child.attrib["opacity"]))
+        H.prove(H.close(got, want) if H.mode == "sym" else abs(got - want) <= 1e-9 * (1 + abs(want)), "inherit_multiply.alpha_is_the_product_of_the_clamped_parent_and_child_opacities")
 
 
 @obligation(P, "cascade.display_and_overflow", functions=[F + "_inherit_nondefault_display", F + "_inherit_nondefault_overflow"])
@@ -139,8 +147,9 @@ def inherit_attrib(H):
         H.prove(ok, "inherit_attrib.every_handled_attribute_reaches_the_child_id_does_not", detail=str(sorted(child.attrib)))
         if ok:
             H.prove(child.attrib["fill"] == "red" and child.attrib["stroke"] == "blue" and child.attrib["display"] == "none", "inherit_attrib.copy_semantics_per_attribute")
-            got = num_of(H, child.attrib["opacity"])
-            H.prove(H.close(got, on * cn) if H.mode == "sym" else abs(got - on * cn) < 1e-9 * (1 + abs(on * cn)), "inherit_attrib.opacity_multiplied")
+            got = _clamp01(H, num_of(H, child.attrib["opacity"]))
+            want = _clamp01(H, on) * _clamp01(H, cn)
+            H.prove(H.close(got, want) if H.mode == "sym" else abs(got - want) < 1e-9 * (1 + abs(want)), "inherit_attrib.opacity_multiplied")
     elif which == "unhandled raises":
         child = element(H, "g", {})
         _, e = H.catch(_inherit_attrib, {"fill": "red", "font-size": "3"}, child)
@@ -201,8 +210,8 @@ def group_flattening(H):
         H.prove(len(now) == 2 + len(children) and now[0] is before and now[-1] is after and all(a is b for a, b in zip(now[1:-1], children)),
                 "group.children_take_the_group_place_in_order")
         for k, cn in zip(kids, kid_op):
-            g = num_of(H, k.attrib["opacity"]) if "opacity" in k.attrib else 1.0
-            want = cn * clamped
+            g = _clamp01(H, num_of(H, k.attrib["opacity"])) if "opacity" in k.attrib else 1.0
+            want = _clamp01(H, cn) * clamped
             H.prove(H.close(g, want) if H.mode == "sym" else abs(g - want) < 1e-9, "group.clamped_opacity_multiplied_into_each_child")
             H.prove(k.attrib.get("d") == "M0,0" and set(k.attrib) <= {"opacity", "d"}, "group.nothing_else_pushed_to_children")
     else:
@@ -229,9 +238,9 @@ def normalize_opacity(H):
 
     clamp = (lambda v: smax(0, smin(1, v))) if H.mode == "sym" else (lambda v: max(0.0, min(1.0, v)))
     if fill != "none":
-        H.prove(H.close(out.opacity * clamp(out.fill_opacity), o * clamp(fo)), "normalize_opacity.fill_alpha_unchanged")
+        H.prove(H.close(clamp(out.opacity) * clamp(out.fill_opacity), clamp(o) * clamp(fo)), "normalize_opacity.fill_alpha_unchanged")
     if stroke != "none":
-        H.prove(H.close(out.opacity * clamp(out.stroke_opacity), o * clamp(so)), "normalize_opacity.stroke_alpha_unchanged")
+        H.prove(H.close(clamp(out.opacity) * clamp(out.stroke_opacity), clamp(o) * clamp(so)), "normalize_opacity.stroke_alpha_unchanged")
     if stroke == "none" and fill != "none":
         H.prove(H.close(out.fill_opacity, 1.0), "normalize_opacity.fill_opacity_folded_into_opacity")
     H.prove(out.fill == fill and out.stroke == stroke, "normalize_opacity.paints_untouched")
